@@ -248,6 +248,52 @@ func runC04(c *rt.Ctx) {
 			}
 		}
 	}
+	// (b2) values of many chunks: counts around every power of two a window, batch or counter might
+	// be sized to, up to 5 000 (thorough 70 000) chunks; loud and quiet writes; read back three ways
+	manyCounts := []int{31, 32, 33, 255, 256, 257, 1000, 1023, 1024, 1025, 4095, 4096, 4097, 5000}
+	if c.Thorough() {
+		manyCounts = append(manyCounts, 8191, 8192, 8193, 32767, 32768, 32769, 65535, 65536, 65537, 70000)
+	}
+	for _, kl := range []int{1, 250} {
+		for ci, n := range manyCounts {
+			for _, quiet := range []bool{false, true} {
+				item++
+				if !c.Mine(item) || c.Expired() {
+					continue
+				}
+				if quiet && ci%3 != 0 {
+					continue
+				}
+				kb := wire.GenValue(kl, kl+77)
+				for i := range kb {
+					kb[i] = 'A' + kb[i]%26
+				}
+				key := string(kb)
+				p := payloadFor(kl)
+				for _, vlen := range []int{n*p - 1, n * p, n*p + 1} {
+					ops := []wire.Op{
+						{Kind: "set", Key: key, VGen: true, VLen: vlen, VSeed: n + kl, Flags: uint32(n), QuietW: quiet},
+						{Kind: "get", Key: key},
+						{Kind: "gat", Key: key, TTL: 1000},
+						{Kind: "mget", Keys: []string{key, key}},
+						{Kind: "append", Key: key, VGen: true, VLen: 2, VSeed: 5},
+						{Kind: "get", Key: key},
+					}
+					sc := ChunkScenario{Harness: "C04", Ops: ops}
+					var r *ChunkResult
+					InBubble(c.T, func() { r = RunChunk(sc, ChunkOpts{NoPhys: true}) })
+					c.Eval(1)
+					c.Trace(1)
+					c.Trans(int64(len(ops)))
+					c.Distinct(fmt.Sprintf("many|%d|%d|%v", kl, vlen, quiet))
+					c.Nontrivial(fmt.Sprintf("many|%d|%d|%v", kl, vlen, quiet))
+					for _, f := range r.Findings {
+						c.Violation(f.Sig, f.What, sc)
+					}
+				}
+			}
+		}
+	}
 	c.Set("grid_key_lengths", len(klens))
 	c.Set("grid_max_chunks", maxK+1)
 }
